@@ -136,3 +136,54 @@ func VerifH_C11_L2_stable() {
 		vz.Cover("kill-time-passed-in-between")
 	}
 }
+
+// VerifH_C10_decidedStopsRest: a parallel Job (two indexes) whose completion
+// strategy is already decided by the recorded outcomes - AnySuccessful with a
+// succeeded index, AllSuccessful with an index that used all its attempts -
+// while a task of the other index is still alive. "Once the strategy is decided
+// the Job does reach that result, after stopping the tasks that are no longer
+// needed": the pass deletes every live task and creates none; only then can the
+// Job become finished (C10/finished-only-when-no-task-alive in the status lemma).
+func VerifH_C10_decidedStopsRest() {
+	p := verifSetupPass(verifPassOpts{
+		job:            verifJobOpts{maxRefs: 2, parallel: 2, started: 1, maxAttemptsHi: 2, inv8: true, concreteTimes: true},
+		taskDeleting:   true,
+		createOutcomes: 1,
+	})
+	j := p.j
+	err := p.run()
+	decided := false
+	for pi := range j.indexes {
+		if j.strategyAny && j.succeeded(pi) {
+			decided = true
+		}
+		if !j.strategyAny && j.exhausted(pi) {
+			decided = true
+		}
+	}
+	if !decided || err != nil {
+		return
+	}
+	deleted := map[string]bool{}
+	for _, c := range p.te.CallsOf("delete") {
+		deleted[c.Name] = true
+	}
+	vz.Assert(len(p.created) == 0, "C10/decided-job-creates-no-further-task")
+	live := 0
+	for _, r := range j.refs {
+		if r.task == nil || r.hasFinished {
+			continue
+		}
+		if !r.task.Ref.FinishTimestamp.IsZero() {
+			continue
+		}
+		live++
+		if r.task.DeletionTS.IsZero() {
+			vz.Assert(deleted[r.name], "C10/decided-job-stops-the-tasks-no-longer-needed")
+			vz.Cover("live-task-of-a-decided-job")
+		}
+	}
+	if live == 0 {
+		vz.Cover("decided-nothing-alive")
+	}
+}
